@@ -16,14 +16,17 @@ Inductive case :=
     (* metrix history store projected to (validator number in key order, number of records) *)
 | CAnyMissing (keys present : list Z) (got : bool)
 | CSortedMissing (keys present : list Z) (got : list Z)
-| CJailMissing (vals : list (Z * Z * bool)) (rounds : list (list Z)) (got : list Z).
+| CJailMissing (vals : list (Z * Z * bool)) (rounds : list (list Z)) (got : list Z)
+| CVestEnd (t months start stop : Z).
+    (* MsgRegisterLightNodeClient at block time t (UTC seconds) consuming a licence with [months] vesting months:
+       StartTime / EndTime of the continuous vesting account found in the auth store afterwards *)
     (* consensus PruneOldMessages observed on a branch of a full-application state: vals = (validator number,
        consensus power, jailed) before; rounds = per stale contentious message that reaches the jailing loop, the
        validators without evidence in snapshot order; got = validator numbers jailed afterwards, ascending *)
 
 Definition amb_env (flag : bool) (rev_order : bool) : Ambient :=
   {| env := fun n => if flag then (if String.eqb n ff_name then Some ""%string else None) else None;
-     wallclock := 0; gomaxprocs := 1;
+     wallclock := 0; gomaxprocs := 1; tz := fun _ => if rev_order then 32400 else 0;
      ord_infos := fun l => if rev_order then rev l else l;
      ord_groups := fun l => if rev_order then rev l else l;
      ord_updates := fun l => if rev_order then rev l else l;
@@ -58,4 +61,10 @@ Definition check (c : case) : bool :=
       list_eqb Z.eqb (sorted_missing_amb (amb_env false true) keys present) got
   | CJailMissing vals rounds got =>
       list_eqb Z.eqb (jailed_ids (jail_rounds vals rounds)) got
+  | CVestEnd t months start stop =>
+      match snd (step_amb (amb_env false false) {| st_cache := cache0; st_kv := [] |} (TxVest t months)),
+            snd (step_amb (amb_env true true) {| st_cache := cache0; st_kv := [] |} (TxVest t months)) with
+      | RVest s1 e1, RVest s2 e2 => (s1 =? start) && (e1 =? stop) && (s2 =? start) && (e2 =? stop)
+      | _, _ => false
+      end
   end.
